@@ -29,6 +29,19 @@ Proof. exact langid_from_iter_spec. Qed.
 Theorem C02_value_canonical : forall s v, langid_from_bytes s = Ok v -> li_inv v = true.
 Proof. exact langid_parse_inv. Qed.
 
+(* canonicalize is the same acceptor with the same error: it succeeds exactly when from_bytes does (returning the
+   value's string) and fails with exactly from_bytes's error *)
+Theorem C02_canonicalize_same_acceptor : forall s,
+  (forall t, li_canonicalize s = Ok t <-> exists v, langid_from_bytes s = Ok v /\ t = li_to_string v)
+  /\ (forall e, li_canonicalize s = Err e <-> langid_from_bytes s = Err e).
+Proof.
+  intros s. unfold li_canonicalize. destruct (langid_from_bytes s) as [v|e'| |]; split; intros x; split;
+    try congruence; try (intros (v' & H & _); congruence).
+  - intros H. exists v. split; [reflexivity|congruence].
+  - intros (v' & H & ->). congruence.
+Qed.
+Print Assumptions C02_canonicalize_same_acceptor.
+
 Example C02_ex : langid_from_bytes (bs "eN_latn_Us-Valencia-1996-valencia"%string)
   = Ok (mkLangId (Some (bs "en"%string)) (Some (bs "Latn"%string)) (Some (bs "US"%string))
                  (Some [bs "1996"%string; bs "valencia"%string])).
